@@ -230,6 +230,8 @@ fn make_interp<T: Smp>(
     Some(match which {
         "probe" => Box::new(Probe { len, nbr: osf }),
         "lprobe" => Box::new(LProbe { len, nbr: osf }),
+        // a user-implemented interpolator whose len() is not rounded to a multiple of 8
+        "rprobe" => Box::new(Probe { len: sinc_len, nbr: osf }),
         "scalar" => Box::new(ScalarInterpolator::<T>::new(len, osf, fc, win)),
         "avx" => Box::new(AvxInterpolator::<T>::new(len, osf, fc, win).ok()?),
         "sse" => Box::new(SseInterpolator::<T>::new(len, osf, fc, win).ok()?),
